@@ -479,9 +479,11 @@ Proof.
 Qed.
 Lemma filter_nonsig_sign role new es : ent_is_sig new = true -> filter nonsig (spec_sign role new es) = filter nonsig es.
 Proof.
-  intros Hn. destruct (spec_sign_cases role new es) as [a [old [b [-> [-> [_ [[-> ->]|[x [-> Hx]]]]]]]]].
-  - rewrite !filter_app. cbn [filter app]. unfold nonsig at 2. now rewrite Hn.
-  - rewrite !filter_app. cbn [filter app]. unfold nonsig at 2 4. now rewrite Hn, (is_slot_sig _ _ Hx).
+  intros Hn. assert (nonsig new = false) as Nn by (unfold nonsig; now rewrite Hn).
+  destruct (spec_sign_cases role new es) as [a [old [b [-> [-> [_ [[-> ->]|[x [-> Hx]]]]]]]]].
+  - rewrite !filter_app. cbn [filter app]. now rewrite Nn.
+  - assert (nonsig x = false) as Nx by (unfold nonsig; now rewrite (is_slot_sig _ _ Hx)).
+    rewrite !filter_app. cbn [filter app]. now rewrite Nn, Nx.
 Qed.
 Lemma good_sign role new es : Forall ent_good es -> ent_good new -> Forall ent_good (spec_sign role new es).
 Proof.
@@ -566,7 +568,7 @@ Lemma deb_sigs_spec es : Forall ent_good es -> deb_sigs (ar_spec_file es) = Ok (
 Proof. intros Hg. unfold deb_sigs. rewrite members_spec, chk_all_true by assumption. cbn [bind fst]. now rewrite sig_pairs_mems. Qed.
 Lemma sig_pairs_app a b : sig_pairs (a ++ b) = sig_pairs a ++ sig_pairs b.
 Proof. unfold sig_pairs. now rewrite filter_app, map_app. Qed.
-Lemma lookup_keep k : forall m acc, Forall (fun kv => bytes_eqb (fst kv) k = false) m ->
+Lemma lookup_keep k : forall (m : list (bytes * bytes)) (acc : option bytes), Forall (fun kv => bytes_eqb (fst kv) k = false) m ->
   fold_left (fun acc kv => if bytes_eqb (fst kv) k then Some (snd kv) else acc) m acc = acc.
 Proof. induction m as [|kv m IH]; intros acc H; [reflexivity|]. inversion H as [|? ? H1 H2]; subst. cbn [fold_left]. rewrite H1. now apply IH. Qed.
 Lemma zdrop_gpg role : zdrop deb_v_role_from (spec_sig_name role) = role.
@@ -646,3 +648,236 @@ Section DEBCrypto.
     - apply deb_law_payload.
   Qed.
 End DEBCrypto.
+
+(* ================================================================== refusals *)
+Lemma ar_scan_err : forall fuel verify chk pos l e, ar_scan fuel verify chk pos l = Err e ->
+  e = E_SHORT \/ e = E_UNMODELLED \/ e = E_CONTROL.
+Proof.
+  induction fuel as [|fuel IH]; intros verify chk pos l e H; [discriminate|]. cbn [ar_scan] in H.
+  repeat match type of H with
+         | context [if ?c then _ else _] => destruct c eqn:?; try discriminate; try (inversion H; subst; auto; fail)
+         end;
+  match type of H with
+  | context [ar_scan fuel ?v ?c ?p ?x] => destruct (ar_scan fuel v c p x) eqn:E; cbn [bind] in H; try discriminate; inversion H; subst; eapply IH; eauto
+  end.
+Qed.
+(* relic refuses a package with: a truncated member header; an unreadable / unknown control.tar; no control.tar at all
+   (E_UNMODELLED: a member name containing '/', which the model does not follow) *)
+Theorem deb_refuses_clean ctl f e : deb_hashin ctl f = Err e ->
+  e = E_SHORT \/ e = E_UNMODELLED \/ e = E_CONTROL \/ e = E_NOCONTROL.
+Proof.
+  unfold deb_hashin, deb_scan, ar_members. 
+  destruct (ar_scan (length f) false (deb_chk ctl) (Z.min 8 (zlen f)) (zdrop 8 f)) as [r| |] eqn:E; cbn [bind]; try discriminate.
+  - destruct (deb_no_control _); cbn [bind]; intros H; inversion H. auto.
+  - intros H. inversion H. subst. destruct (ar_scan_err _ _ _ _ _ _ E) as [?|[?|?]]; auto.
+Qed.
+Theorem deb_embed_refuses_clean ctl role mtime f b e : deb_embed ctl role mtime f b = Err e -> deb_hashin ctl f = Err e \/ e = E_COPY.
+Proof.
+  unfold deb_embed, deb_hashin. destruct (deb_scan ctl f) as [s| |]; cbn [bind]; try (intros H; left; exact H); try discriminate.
+  destruct (deb_slot _ _); destruct (deb_append_cond _); destruct (Z.ltb _ _); intros H; inversion H; auto.
+Qed.
+
+(* ================================================================== is_signed *)
+Lemma sig_pairs_exists es : negb (match sig_pairs es with [] => true | _ :: _ => false end) = existsb ent_is_sig es.
+Proof.
+  induction es as [|e es IH]; [reflexivity|]. unfold sig_pairs in *. cbn [filter existsb]. destruct (ent_is_sig e); [reflexivity|exact IH].
+Qed.
+Theorem deb_is_signed_spec ctl f : deb_wf ctl f = true -> deb_is_signed f = Ok (deb_spec_signed f).
+Proof.
+  intros Hw. destruct (deb_wf_form _ _ Hw) as [es W]. destruct W as [Wp Wf Wg _ _ _].
+  unfold deb_is_signed, deb_spec_signed. rewrite Wp. rewrite Wf, deb_sigs_spec by assumption. cbn [bind]. now rewrite sig_pairs_exists.
+Qed.
+
+(* ================================================================== C03: only the slot differs *)
+Theorem deb_only_these_ranges_differ ctl role mtime f b g : deb_embed_wf ctl role mtime f b = Ok g ->
+  exists pre old post, f = pre ++ old ++ post /\ g = pre ++ ar_wmember (spec_sig_name role) mtime 33188 b ++ post /\
+    ((old = [] /\ post = []) \/ exists x, old = ent_enc x /\ ent_name x = spec_sig_name role).
+Proof.
+  intros He. destruct (deb_embed_form _ _ _ _ _ _ He) as [es E]. destruct E as [W _ -> _ _ _]. destruct W as [_ -> _ _ _ _].
+  destruct (spec_sign_cases role (new_ent role mtime b) es) as [a [old [bb [-> [-> [_ Hc]]]]]].
+  exists (spec_ar_magic ++ enc_all a), (enc_all old), (enc_all bb). unfold ar_spec_file.
+  fold (enc_all (a ++ old ++ bb)). fold (enc_all (a ++ new_ent role mtime b :: bb)).
+  rewrite !enc_all_app, enc_all_cons, <- !app_assoc. split; [reflexivity|]. split.
+  - change (ar_wmember (spec_sig_name role) mtime 33188 b) with (ar_wmember (deb_hdr_name (deb_filename role)) mtime deb_hdr_mode b).
+    now rewrite new_ent_enc.
+  - destruct Hc as [[-> ->]|[x [-> Hx]]]; [left; split; reflexivity|right]. exists x. split.
+    + unfold enc_all. cbn [map concat]. now rewrite app_nil_r.
+    + unfold is_slot in Hx. now apply bytes_eqb_eq in Hx.
+Qed.
+
+(* ================================================================== C05: digest input = the specification's *)
+Lemma name16 e : ent_ok e = true -> pad_sp 16 (ent_name e) = zslice 0 16 (e_hdr e).
+Proof.
+  intros H. destruct (ent_ok_facts e H) as [H60 _ _ _]. unfold ent_name. set (n16 := zslice 0 16 (e_hdr e)).
+  assert (length n16 = 16%nat) as L.
+  { unfold n16, zslice, ztake, zdrop. cbn [Z.to_nat skipn]. rewrite firstn_length. unfold zlen in H60. change (Z.to_nat (16 - 0)) with 16%nat. lia. }
+  destruct (rtrim_prefix n16) as [k Hk]. assert (length n16 = (length (rtrim n16) + k)%nat) as Lk by (rewrite Hk at 1; rewrite app_length, repeat_length; reflexivity).
+  rewrite pad_sp_short by lia. unfold spec_field. replace (16 - length (rtrim n16))%nat with k by lia. now rewrite <- Hk.
+Qed.
+Lemma ent_ser_spec e : ent_ok e = true -> ent_ser e = spec_ser (zslice 0 16 (e_hdr e), e_data e).
+Proof. intros H. unfold ent_ser, spec_ser. cbn [fst snd]. now rewrite name16. Qed.
+Theorem deb_hashin_eq_spec ctl f : deb_wf ctl f = true -> deb_hashin ctl f = deb_spec_hashin f.
+Proof.
+  intros Hw. destruct (deb_wf_form _ _ Hw) as [es W]. destruct W as [Wp Wf Wg _ Wc Wh].
+  unfold deb_spec_hashin. rewrite Wp. rewrite Wf, deb_hashin_spec by assumption. f_equal. f_equal.
+  unfold spec_payload_of. fold nonsig. rewrite map_map. apply map_ext_in. intros e He.
+  apply filter_In in He as [He _]. rewrite Forall_forall in Wg. apply ent_ser_spec. apply (Wg e He).
+Qed.
+
+(* ================================================================== C02: equal digest inputs, equal payloads *)
+Lemma app_eq_len {A} : forall (a a' b b' : list A), length a = length a' -> a ++ b = a' ++ b' -> a = a' /\ b = b'.
+Proof.
+  induction a as [|x a IH]; intros [|y a'] b b' L E; cbn in L; try discriminate; [auto|].
+  cbn [app] in E. inversion E. subst. destruct (IH a' b b' ltac:(lia) H1) as [-> ->]. auto.
+Qed.
+Definition nd_ok (nd : bytes * bytes) : Prop := length (fst nd) = 16%nat /\ zlen (snd nd) < 256 ^ 8.
+Lemma spec_ser_inj : forall l1 l2, Forall nd_ok l1 -> Forall nd_ok l2 -> concat (map spec_ser l1) = concat (map spec_ser l2) -> l1 = l2.
+Proof.
+  induction l1 as [|[n1 d1] l1 IH]; intros [|[n2 d2] l2] H1 H2 E; cbn [map concat] in E.
+  - reflexivity.
+  - exfalso. inversion H2 as [|? ? [L _] _]; subst. cbn [fst] in L. apply (f_equal (@length Z)) in E. unfold spec_ser in E. cbn [fst] in E.
+    rewrite !app_length in E. cbn [length] in E. lia.
+  - exfalso. inversion H1 as [|? ? [L _] _]; subst. cbn [fst] in L. apply (f_equal (@length Z)) in E. unfold spec_ser in E. cbn [fst] in E.
+    rewrite !app_length in E. cbn [length] in E. lia.
+  - inversion H1 as [|? ? [La Lb] H1']; subst. inversion H2 as [|? ? [Lc Ld] H2']; subst. cbn [fst snd] in *.
+    unfold spec_ser in E. cbn [fst snd] in E. rewrite <- !app_assoc in E.
+    apply app_eq_len in E as [-> E]; [|lia].
+    apply app_eq_len in E as [E8 E]; [|now rewrite !be_enc_length].
+    apply (f_equal be_dec) in E8. pose proof (zlen_nonneg d1). pose proof (zlen_nonneg d2).
+    rewrite !be_dec_enc in E8 by (change (Z.of_nat 8) with 8; lia).
+    apply app_eq_len in E as [_ E]; [|now rewrite !be_enc_length].
+    apply app_eq_len in E as [-> E]; [|unfold zlen in E8; lia].
+    f_equal. now apply IH.
+Qed.
+Lemma payload_nd_ok es : Forall ent_good es -> Forall nd_ok (spec_payload_of es).
+Proof.
+  intros Hg. unfold spec_payload_of. apply Forall_forall. intros nd Hin. apply in_map_iff in Hin as [e [<- He]].
+  apply filter_In in He as [He _]. rewrite Forall_forall in Hg. destruct (Hg e He) as [Hok _].
+  destruct (ent_ok_facts e Hok) as [H60 _ _ Hs]. split; cbn [fst snd].
+  - unfold zslice, ztake, zdrop. cbn [Z.to_nat skipn]. rewrite firstn_length. unfold zlen in H60. change (Z.to_nat (16 - 0)) with 16%nat. lia.
+  - change (256 ^ 8) with 18446744073709551616. lia.
+Qed.
+Theorem deb_protect ctl g1 g2 : deb_wf ctl g1 = true -> deb_wf ctl g2 = true ->
+  deb_hashin ctl g1 = deb_hashin ctl g2 -> deb_payload g1 = deb_payload g2.
+Proof.
+  intros W1 W2. rewrite !deb_hashin_eq_spec by assumption.
+  destruct (deb_wf_form _ _ W1) as [e1 [P1 _ G1 _ _ _]]. destruct (deb_wf_form _ _ W2) as [e2 [P2 _ G2 _ _ _]].
+  unfold deb_spec_hashin, deb_payload. rewrite P1, P2. intros E. injection E as E. f_equal.
+  apply spec_ser_inj; auto using payload_nd_ok.
+Qed.
+
+(* ================================================================== checkSig *)
+Lemma check_lines_ok : forall lines dg, check_lines lines dg = Ok tt ->
+  Forall (fun ln => lookup_last (snd ln) dg = Some (fst ln) /\ fst ln <> []) lines.
+Proof.
+  induction lines as [|[sums name] lines IH]; intros dg H; [constructor|]. cbn [check_lines] in H.
+  unfold deb_cs_unknown, deb_cs_mismatch in H.
+  destruct (lookup_last name dg) as [c|] eqn:El; [|discriminate].
+  destruct (bytes_eqb c []) eqn:E1; [discriminate|]. destruct (bytes_eqb c sums) eqn:E2; [|discriminate]. cbn [negb] in H.
+  apply bytes_eqb_eq in E2. subst c. apply bytes_eqb_neq in E1. constructor; [cbn [fst snd]; auto|now apply IH].
+Qed.
+(* what an accepted manifest guarantees: every listed file is in the archive (the last member of that name) with exactly the
+   listed sums, and every member name of the archive is listed *)
+Theorem deb_check_sound lines dg : deb_check lines dg = Ok tt ->
+  (forall sums name, In (sums, name) lines -> lookup_last name dg = Some sums /\ sums <> []) /\
+  (forall name c, In (name, c) dg -> exists sums, In (sums, name) lines).
+Proof.
+  unfold deb_check. destruct (check_lines lines dg) as [[]| |] eqn:E; cbn [bind]; try discriminate.
+  destruct (forallb _ dg) eqn:Ef; [|discriminate]. intros _. split.
+  - intros sums name Hin. pose proof (check_lines_ok _ _ E) as Hl. rewrite Forall_forall in Hl. exact (Hl _ Hin).
+  - intros name c Hin. rewrite forallb_forall in Ef. specialize (Ef _ Hin). apply existsb_exists in Ef as [[s n] [Hl Hn]].
+    cbn [fst snd] in Hn. apply bytes_eqb_eq in Hn. subst n. eauto.
+Qed.
+
+(* relic's own manifest passes relic's check: lines and digests built from the same (distinctly named) members *)
+Lemma distinct_split k : forall x y, distinct_names (x ++ k :: y) = true -> Forall (fun n => bytes_eqb n k = false) y.
+Proof.
+  induction x as [|h x IH]; intros y H; cbn [app distinct_names] in H; apply andb_true_iff in H as [H1 H2].
+  - apply negb_true_iff in H1. apply Forall_forall. intros n Hn. destruct (bytes_eqb n k) eqn:E; [|reflexivity].
+    apply bytes_eqb_eq in E. subst n. exfalso. assert (existsb (bytes_eqb k) y = true); [|congruence].
+    apply existsb_exists. exists k. split; [assumption|apply bytes_eqb_refl].
+  - now apply IH.
+Qed.
+Lemma lookup_last_distinct (kvs : list (bytes * bytes)) k v : distinct_names (map fst kvs) = true -> In (k, v) kvs -> lookup_last k kvs = Some v.
+Proof.
+  intros Hd Hin. apply in_split in Hin as [a [b ->]]. rewrite map_app in Hd. cbn [map fst] in Hd.
+  apply distinct_split in Hd. unfold lookup_last. rewrite fold_left_app. cbn [fold_left fst snd]. rewrite bytes_eqb_refl.
+  apply lookup_keep. apply Forall_forall. intros kv Hkv. rewrite Forall_forall in Hd. apply Hd. now apply in_map.
+Qed.
+Lemma check_self D (l : list (bytes * bytes)) : distinct_names (map fst l) = true -> (forall d, D d <> []) ->
+  deb_check (map (fun nd => (D (snd nd), fst nd)) l) (map (fun nd => (fst nd, D (snd nd))) l) = Ok tt.
+Proof.
+  intros Hd HD. set (dg := map (fun nd => (fst nd, D (snd nd))) l).
+  assert (map fst dg = map fst l) as Hk by (unfold dg; rewrite map_map; reflexivity).
+  assert (distinct_names (map fst dg) = true) as Hd' by (rewrite Hk; exact Hd).
+  assert (forall sub, incl sub l -> check_lines (map (fun nd => (D (snd nd), fst nd)) sub) dg = Ok tt) as G.
+  { induction sub as [|[n d] sub IH]; intros Hi; [reflexivity|]. cbn [map check_lines fst snd].
+    assert (lookup_last n dg = Some (D d)) as ->.
+    { apply lookup_last_distinct; [exact Hd'|]. unfold dg. apply in_map_iff. exists (n, d). split; [reflexivity|]. apply Hi. now left. }
+    unfold deb_cs_unknown, deb_cs_mismatch. rewrite bytes_eqb_refl. cbn [negb].
+    replace (bytes_eqb (D d) []) with false by (symmetry; apply bytes_eqb_neq; apply HD).
+    apply IH. intros x Hx. apply Hi. now right. }
+  unfold deb_check. rewrite (G l (incl_refl l)). cbn [bind].
+  replace (forallb _ dg) with true; [reflexivity|]. symmetry. apply forallb_forall. intros [n c] Hin.
+  unfold dg in Hin. apply in_map_iff in Hin as [[n' d] [E Hin]]. inversion E; subst. apply existsb_exists.
+  exists (D d, n). split; [|cbn [fst snd]; apply bytes_eqb_refl]. apply in_map_iff. exists (n, d). auto.
+Qed.
+Lemma signed_mems_nd : forall es pos, map (fun m => (m_name m, m_data m)) (deb_signed_members (mems pos es)) = map (fun e => (ent_name e, e_data e)) (filter nonsig es).
+Proof.
+  induction es as [|e es IH]; intros pos; [reflexivity|]. unfold deb_signed_members in *. cbn [mems filter].
+  change (deb_is_gpg (m_name (mem_of pos e))) with (ent_is_sig e). unfold nonsig at 1.
+  destruct (ent_is_sig e); cbn [negb map]; [apply IH|]. now rewrite IH.
+Qed.
+Lemma deb_vmembers_spec es : Forall ent_good es ->
+  deb_vmembers (ar_spec_file es) = Ok (filter (fun m => negb (deb_v_is_gpg (m_name m))) (mems 8 es)).
+Proof. intros Hg. unfold deb_vmembers. rewrite members_spec, chk_all_true by assumption. reflexivity. Qed.
+Theorem deb_verifier_accepts_signed ctl role mtime f b g D s ms :
+  deb_embed_wf ctl role mtime f b = Ok g -> (forall d, D d <> []) -> deb_scan ctl f = Ok s -> deb_vmembers g = Ok ms ->
+  deb_check (deb_lines D (deb_signed_members (ds_members s))) (deb_digests D ms) = Ok tt.
+Proof.
+  intros He HD Hs Hv. destruct (deb_embed_form _ _ _ _ _ _ He) as [es E]. destruct E as [W _ -> Hg _ Hf].
+  destruct W as [_ -> Wg Wd Wc Wh]. rewrite deb_scan_spec, Wc, Wh in Hs by assumption. injection Hs as <-.
+  rewrite deb_vmembers_spec in Hv by assumption. injection Hv as <-. cbn [ds_members].
+  unfold deb_lines, deb_digests. change (filter (fun m => negb (deb_v_is_gpg (m_name m)))) with deb_signed_members.
+  set (l := map (fun e => (ent_name e, e_data e)) (filter nonsig es)).
+  match goal with |- deb_check ?A ?B = _ =>
+    assert (A = map (fun nd => (D (snd nd), fst nd)) l) as EA by (unfold l; rewrite <- (signed_mems_nd es 8), map_map; reflexivity);
+    assert (B = map (fun nd => (fst nd, D (snd nd))) l) as EB
+      by (unfold l; rewrite <- Hf, <- (signed_mems_nd (spec_sign role (new_ent role mtime b) es) 8), map_map; reflexivity);
+    rewrite EA, EB
+  end.
+  apply check_self; [|exact HD]. unfold l. rewrite map_map. exact Wd.
+Qed.
+
+(* ================================================================== witnesses *)
+Definition w_ctl : bytes -> bytes -> bool := fun _ _ => true.
+Definition w_name_control : bytes := [99; 111; 110; 116; 114; 111; 108; 46; 116; 97; 114].     (* "control.tar" *)
+Definition w_name_data : bytes := [100; 97; 116; 97; 46; 116; 97; 114].                        (* "data.tar" *)
+Definition w_deb : bytes := spec_ar_magic ++ ar_wmember w_name_control 0 33188 [1; 2; 3] ++ ar_wmember w_name_data 0 33188 [4; 5].
+
+(* the member walk panics on a mode field shorter than three characters and on a negative size field *)
+Definition w_hdr_shortmode : bytes := pad_sp 16 [97] ++ pad_sp 12 [48] ++ pad_sp 6 [48] ++ pad_sp 6 [48] ++ pad_sp 8 [] ++ pad_sp 10 [48] ++ [96; 10].
+Definition w_hdr_negsize : bytes := pad_sp 16 [97] ++ pad_sp 12 [48] ++ pad_sp 6 [48] ++ pad_sp 6 [48] ++ pad_sp 8 [49; 48; 48; 54; 52; 52] ++ pad_sp 10 [45; 49] ++ [96; 10].
+Theorem deb_refuses_clean_refuted :
+  deb_hashin w_ctl (w_deb ++ w_hdr_shortmode) = Panic 3 /\ deb_hashin w_ctl (w_deb ++ w_hdr_negsize) = Panic 4
+  /\ deb_extract [120] (w_deb ++ w_hdr_shortmode) = Panic 3 /\ deb_extract [120] (w_deb ++ w_hdr_negsize) = Panic 4.
+Proof. vm_compute. repeat split; reflexivity. Qed.
+
+(* a role longer than 12 characters is stored under a truncated member name: the verifier does not find it under the role,
+   and signing again appends a second member instead of replacing the first *)
+Definition w_longrole : bytes := repeat 97 13.
+Theorem deb_law_extract_refuted : exists g g2,
+  deb_embed w_ctl w_longrole 0 w_deb [7] = Ok g /\ deb_extract w_longrole g = Ok None /\
+  deb_embed w_ctl w_longrole 0 g [8] = Ok g2 /\ zlen g2 = zlen g + 62 /\ deb_wf w_ctl w_deb = true.
+Proof. eexists _, _. split; [vm_compute; reflexivity|]. split; [vm_compute; reflexivity|]. split; [vm_compute; reflexivity|]. split; vm_compute; reflexivity. Qed.
+
+(* checkSig compares names and sums as sets: the archive order of the members is not protected, and a member placed in front
+   of a later member of the same name is not looked at *)
+Theorem deb_check_order_refuted :
+  let lines := [([1], w_name_control); ([2], w_name_data)] in
+  deb_check lines [(w_name_control, [1]); (w_name_data, [2])] = Ok tt /\ deb_check lines [(w_name_data, [2]); (w_name_control, [1])] = Ok tt.
+Proof. vm_compute. split; reflexivity. Qed.
+Theorem deb_check_shadow_refuted :
+  let lines := [([1], w_name_control); ([2], w_name_data)] in
+  deb_check lines [(w_name_control, [1]); (w_name_data, [66]); (w_name_data, [2])] = Ok tt.
+Proof. vm_compute. reflexivity. Qed.
